@@ -87,7 +87,8 @@ def handleC08k (f : List String) : Res :=
         | .dichotomic => cmp "translated-dichotomic-k" (showO (AC.Gen.Program.contfracDichotomicStrategyK n)) impl r
         | .dyadic => cmp "translated-dyadic-k" (showO (AC.Gen.Program.contfracDyadicStrategyK n)) impl r
         | .fermat => cmp "translated-fermat-k" (showO (AC.Gen.Program.contfracFermatStrategyK n)) impl r
-        | _ => r
+        | .total => cmp "translated-total-k" (showO (AC.Gen.Program.contfracTotalStrategyK n)) impl r
+        | .sqrt => cmp "translated-sqrt-k" (showO (AC.Gen.Program.contfracSqrtStrategyK n)) impl r
       { r with spec := "na", nt := decide (n ≥ 4), tag := s!"strategy-k={st}" }
     | _, _ => bad "c08k-parse"
   | _ => bad "c08k-arity"
